@@ -292,7 +292,10 @@ fn fail(out: &mut Out, ctx: &Ctx, clause: &str, what: String) {
 /// Oracle bookkeeping (C08 "every fetch leaves the in-flight set when the record arrives ... or times out, a timed-out
 /// holder being reported"), independent of the model: what node `i` scheduled, wrote and reported in one step.
 /// A reported holder must have a fetch that was scheduled at least FETCH_TIMEOUT ago and that the harness has not seen
-/// end (its record arrived and was acceptable, or the key was written).
+/// end: the key was written, or a record of the ADVERTISED type arrived and was acceptable. The clause is restricted to
+/// fetches whose served type equals the advertised one: a fetch whose holder serves another version by the time it is asked
+/// (its copy changed after the advertisement) is completed under the served type only and stays registered when nothing is
+/// written — known finding K-y-served-version-differs, counted below, such a report is "justified" here.
 fn track_fetches(ctx: &mut Ctx, out: &mut Out, i: usize, sched: &[String], log: &StepLog, seeded_key: Option<u64>) {
     const FETCH_TIMEOUT_S: u64 = 20;
     let now = ctx.clock[i];
@@ -308,7 +311,7 @@ fn track_fetches(ctx: &mut Ctx, out: &mut Out, i: usize, sched: &[String], log: 
                 "node {i} reported holder {h} in FailedToFetchHolders at t={now}s, but every fetch it scheduled from {h} had its record arrive (and accepted) or its key written before FETCH_TIMEOUT; outstanding: {:?}",
                 ctx.outstanding[i]
             );
-            fail(out, ctx, "honest_holder_never_reported", what);
+            fail(out, ctx, "holder_not_reported_for_the_served_version", what);
         }
     }
     if !reported.is_empty() {
@@ -936,6 +939,11 @@ fn exec_inner(ctx: &mut Ctx, out: &mut Out, ws: &[&str]) -> Option<(Option<Strin
                                             fail(out, ctx, "arrived_record_leaves_inflight", what);
                                         }
                                         ctx.outstanding[i].retain(|(_, k, ty, _)| !(*k == kn && *ty == tt));
+                                        // K-y: the holder advertised another version than it served and nothing was written:
+                                        // the fetch registered under the advertised type is not completed by this arrival
+                                        if !changed && ctx.outstanding[i].iter().any(|(h, k, ty, _)| *h == from && *k == kn && *ty != tt) {
+                                            out.count("known:K-y-served-version-differs");
+                                        }
                                     }
                                 }
                                 Some(false) => out.count("rsp:not-acceptable"),
@@ -1628,6 +1636,12 @@ fn corpus(uni: &Universe) -> Vec<String> {
     // the same for a chunk that is held by the time its copy arrives, and for a transaction set
     mesh2(&mut v, &[0, 4]);
     for l in ["seed 0 0 C", "seed 0 4 T0", "seed 1 4 T0.1", "interval 0", "deliver 1", "seed 1 0 C", "deliver 2", "deliver 3", "deliver 4", "deliver 5", "dump", "tick 1 25", "tick 0 50", "interval 0", "deliver 6", "dump"] {
+        v.push(l.into());
+    }
+    // K-y-served-version-differs: the holder's register changes between its advertisement and the serve; the served copy
+    // changes nothing at the requester, the fetch registered under the advertised type stays and the holder is reported
+    mesh2(&mut v, &[2, 4]);
+    for l in ["seed 0 2 R0", "seed 1 2 R0.1.2", "interval 0", "deliver 1", "seed 0 2 R0.1", "deliver 2", "deliver 3", "tick 1 25", "tick 0 50", "interval 0", "deliver 4", "dump"] {
         v.push(l.into());
     }
     // a stored reply followed by the completion notice while the same version is queued from another holder (3 nodes)
